@@ -11,6 +11,8 @@ from pyvc.values import NArr, Obj, PList, SArr, fresh_name, to_z3, zint
 
 ext_C07.install()
 
+DEPENDS = ["C05"]  # sort_nodes_impl: C07's contract is a checked REFINEMENT of the contract proved under C05 (see register_sort)
+
 TU = "swcgeom/core/tree_utils.py"
 NORM = "swcgeom/core/swc_utils/normalizer.py"
 KEYS = list(COLS)
@@ -302,6 +304,8 @@ def _is_tree(E, ids, pids, which):
         pdz = [to_z3(x, "int") for x in pids.items]
         if which == "ids-distinct":
             return z3.And(*[idz[a] != idz[b] for a in range(n) for b in range(a + 1, n)]) if n > 1 else True
+        if which == "no-id-is-minus-one":
+            return z3.And(*[x != -1 for x in idz]) if n else True
         if which == "single-root":
             return z3.Sum([z3.If(p == -1, 1, 0) for p in pdz]) == 1 if n else False
         if which == "parents-exist":
@@ -316,15 +320,19 @@ def _is_tree(E, ids, pids, which):
     a, b = z3.Ints(fresh_name("a") + " " + fresh_name("b"))
     if which == "ids-distinct":
         return z3.ForAll([a, b], z3.Implies(z3.And(0 <= a, a < b, b < N), ids.get(a).z != ids.get(b).z))
+    if which == "no-id-is-minus-one":
+        # -1 is the "no parent" marker: a row carrying it as its id would be taken for the parent of the root (found by the
+        # refinement check against C05's proved contract: the contract assumed here before did not ask for it)
+        return z3.ForAll([a], z3.Implies(z3.And(0 <= a, a < N), ids.get(a).z != -1))
     if which == "single-root":
         return z3.And(0 <= rr, rr < N, pids.get(rr).z == -1, z3.ForAll([a], z3.Implies(z3.And(0 <= a, a < N, a != rr), pids.get(a).z != -1)))
     if which == "parents-exist":
         return z3.ForAll([a], z3.Implies(z3.And(0 <= a, a < N, a != rr), z3.And(0 <= prow(a), prow(a) < N, ids.get(prow(a)).z == pids.get(a).z)))
     if which == "every-row-reaches-the-root":
-        return z3.ForAll([a], z3.Implies(z3.And(0 <= a, a < N), z3.And(sdepth(a) >= 0, z3.Implies(a != rr, sdepth(a) == sdepth(prow(a)) + 1))))
+        return z3.And(sdepth(rr) == 0, z3.ForAll([a], z3.Implies(z3.And(0 <= a, a < N), z3.And(sdepth(a) >= 0, z3.Implies(a != rr, sdepth(a) == sdepth(prow(a)) + 1)))))
 
 
-TREE_PRE = ("ids-distinct", "single-root", "parents-exist", "every-row-reaches-the-root")
+TREE_PRE = ("ids-distinct", "no-id-is-minus-one", "single-root", "parents-exist", "every-row-reaches-the-root")
 SORT_GHOSTS = {"prow": (["int"], "int"), "sdepth": (["int"], "int")}
 
 
@@ -369,10 +377,52 @@ def register_sort(R):
 
         return (w, f)
 
+    def sni_setup(S):
+        n = S.int("n")
+        S.assume(n.z >= 0)
+        return dict(topology=(S.arr("int", n=n, name="old_ids"), S.arr("int", n=n, name="old_pids")), __ghost__={"srootrow": S.int("srootrow")})
+
+    def sni_lengths(E, v, o):
+        (new_ids, new_pids), id_map = v["result"]
+        n = o["topology"][0].nz()
+        return z3.And(new_ids.nz() == n, new_pids.nz() == n, id_map.nz() == n)
+
+    def link_entry(E, v):
+        """C05's ghost symbols DEFINED from this module's vocabulary: the root row, the parent row and the depth witness are
+        the ones given here; posof (row carrying an id) is the inverse of the id column, which exists because the ids are
+        pairwise distinct (stated under that hypothesis, so the definition is conservative)"""
+        from contracts import C05
+
+        ids, pids = v["topology"]
+        n = ids.nz()
+        prow, sdepth, rr = E.spec_extra["prow"].f, E.spec_extra["sdepth"].f, to_z3(E.spec_extra["srootrow"], "int")
+        i, a, b = (z3.Int(fresh_name(x)) for x in "iab")
+        E.assume(C05.P0 == rr)
+        E.assume(z3.ForAll([i], C05.pp(i) == prow(i)))
+        E.assume(z3.ForAll([i], C05.depth5(i) == sdepth(i)))
+        distinct = z3.ForAll([a, b], z3.Implies(z3.And(0 <= a, a < b, b < n), ids.get(a).z != ids.get(b).z))
+        E.assume(z3.Implies(distinct, z3.ForAll([i], z3.Implies(z3.And(0 <= i, i < n), C05.posof(ids.get(i).z) == i))))
+        E.assumptions.add("ghost definitions (refinement of sort_nodes_impl, C07 over C05): rootrow5 := srootrow, pp := prow, depth5 := sdepth, "
+                          "posof := inverse of the id column (exists when the ids are pairwise distinct)")
+
+    def link_exit(E, v, res):
+        """this module's Skolem inverse of the returned index array := C05's `newof`"""
+        from contracts import C05
+
+        i = z3.Int(fresh_name("i"))
+        f = sni_inv(E, res[1])
+        E.assume(z3.ForAll([i], f(i) == C05.newof(i)))
+        E.assumptions.add("ghost definition (refinement of sort_nodes_impl, C07 over C05): sortinv := newof")
+
     key = f"{NORM}:sort_nodes_impl"
-    if True:  # registered next to C05's verified contract; the registry prefers this one only while C07 is checked
-        R.add(key, prop="C07", trusted=True, requires=[sni_pre(w) for w in TREE_PRE], returns=sni_result, ensures=[sni_post(w) for w in RELABEL],
-              notes="assumed contract (its proof belongs to C05): the returned index array is a permutation of the rows, parents keep their children and come first")
+    # registered next to C05's verified contract (the registry prefers this one while a C07 carrier is verified).  It used to be
+    # ASSUMED; it is now a checked refinement of C05's contract: `refines` makes the verifier prove requires(C07) => requires(C05)
+    # and ensures(C05) => ensures(C07) instead of looking at the body (which C05 does).
+    R.add(key, prop="C07", setup=sni_setup, ghost_funcs=SORT_GHOSTS, requires=[sni_pre(w) for w in TREE_PRE], returns=sni_result,
+          ensures=[("lengths", sni_lengths)] + [sni_post(w) for w in RELABEL],
+          options=dict(refines="C05", refine_link=dict(entry=link_entry, exit=link_exit)),
+          notes="refinement of the contract proved under C05 (vocabulary of this module: prow / sdepth / srootrow witnesses, Skolem inverse sortinv): "
+                "the returned index array is a permutation of the rows, parents keep their children and come first")
 
     # ------------------------------------------------------------- _sort_tree
     def st_setup(S):
